@@ -181,6 +181,9 @@ pub fn drive(cli: &Cli, parts: Vec<crate::runner::Part<'_>>, rule: &str, assumpt
         }
         let mut cfg = cli.cfg(&p.name, &p.engine, p.cases);
         cfg.max_shrink_iters = p.max_shrink_iters;
+        if let Some(m) = p.max_workers {
+            cfg.workers = cfg.workers.min(m);
+        }
         reports.push((p.run)(&cfg));
     }
     finish(cli, reports, rule, assumptions)
